@@ -7,8 +7,11 @@ def contracts():
     cs.append(Contract(
         target="luaexec:initialize_lua.filter_attribute_access", prop="C06", mode="value",
         params={"obj": "opq", "attr_name": "str", "is_setting": "bool"},
-        ensures=["result == attr_name", "not attr_name.startswith('_')", "not isinstance(obj, partial)"],
-        raises=["AttributeError"], raises_ensures=["attr_name.startswith('_') or isinstance(obj, partial)"], result="str"))
+        ensures=["result == attr_name", "not attr_name.startswith('_')", "not isinstance(obj, partial)",
+                 "not isinstance(obj, BaseException)"],
+        raises=["AttributeError"],
+        raises_ensures=["attr_name.startswith('_') or isinstance(obj, partial) or isinstance(obj, BaseException)"],
+        result="str"))
     cs.append(Contract(
         target="luaexec:initialize_lua.filter_attribute_access", variant="non_str_name", prop="C06", mode="value",
         params={"obj": "opq", "attr_name": "int", "is_setting": "bool"},
